@@ -556,6 +556,23 @@ func (w *world) outgoing(p *bparty, data []byte, bcast bool, to int) {
 		case "badkey-flip1", "badkey-flip40", "badkey-flip70", "badkey-fliplast", "badkey-ff", "badkey-zero", "badkey-flagbit", "badkey-long":
 			// a right-sized key that is not the honest one, WITH a matching commitment
 			bad := w.badKey(p, dv.kind)
+			if dv.kind == "badkey-zero" {
+				// the identity is a valid point: the key it yields (own key with that component's exponent 0) is accounted for
+				e := w.mirrorSk(p)
+				idx := 0
+				if w.pkg != "bls" {
+					switch p.id % 3 {
+					case 0:
+						idx = 0
+					case 1:
+						idx = 1
+					default:
+						idx = len(e) - 1
+					}
+				}
+				e[idx] = big.NewInt(0)
+				w.registerKey(e)
+			}
 			if c := w.canon(bad); c != nil && w.keyExp[string(c)] != nil {
 				dg := sha256.Sum256(bad)
 				w.commitOf[string(dg[:])] = string(c) // a commitment to these bytes commits to that key
@@ -1036,6 +1053,16 @@ func (w *world) collect(sc *jBScenario) {
 			exps := make([][]*big.Int, 0, w.n)
 			for _, k := range pks {
 				e, ok := w.keyExp[string(w.canon(k))]
+				if !ok {
+					// the identity (exponent 0 in every component) is a key a deviating participant may legitimately reveal
+					zero := make([]*big.Int, w.comps)
+					for c := range zero {
+						zero[c] = big.NewInt(0)
+					}
+					if bytes.Equal(w.canon(w.keyBytes(zero)), w.canon(k)) {
+						e, ok = zero, true
+					}
+				}
 				if !ok {
 					jp.ExpsMatch = false
 					e = make([]*big.Int, w.comps)
